@@ -633,3 +633,12 @@ def index_presence_obligations(ctx):
            "parsed value is truthy")
 def x13(ctx):
     return index_presence_obligations(ctx)
+
+
+@rule("C10", "X14", floor=5, kind="N",
+      desc="index values stored under an etag are those of the blob with that etag: the tree store reads members by "
+           "object id, never from the working-tree file (same obligations as C04/B2) - a file that a failed or running "
+           "write left behind would be indexed under the old etag and answer queries until restart")
+def x14(ctx):
+    from .c04 import b2
+    return b2(ctx)
